@@ -4,9 +4,13 @@ import (
 	"context"
 	"errors"
 	"fmt"
+	"io"
+	"net/http"
 	"reflect"
 	"runtime"
 	"strings"
+
+	"github.com/safing/portbase/modules"
 )
 
 // Panic values. Every value is tied to the item that raises it (id) so that a report
@@ -60,6 +64,19 @@ func newValue(class, id string) *pvalue {
 		v.val = (*nilErr)(nil)
 	case "int":
 		v.val = 424242
+	// sentinel errors that code on the recovery path might treat specially
+	case "http-abort":
+		v.val = http.ErrAbortHandler
+	case "http-abort-wrapped":
+		v.val = fmt.Errorf("verif %s: %w", id, http.ErrAbortHandler)
+	case "http-server-closed":
+		v.val = http.ErrServerClosed
+	case "restart-now":
+		v.val = modules.ErrRestartNow
+	case "ctx-deadline":
+		v.val = context.DeadlineExceeded
+	case "io-eof":
+		v.val = io.EOF
 	}
 	return v
 }
